@@ -259,8 +259,7 @@ def rule_r6(ctx):
         ctx.r.violation(rid, key_of(sp, None, "server-pull-noop"), "server.pull_trigger does not reach the trigger", sp.loc())
 
 
-def rule_r7(ctx):
-    rid = "C05.R7"
+def rule_r7(ctx, rid="C05.R7"):
     ctx.r.rule(rid, "worker pool: enqueue is followed by notify in the same lock region; idle workers wait in a loop that re-tests its predicate; stop requests notify_all")
     p = ctx.p
     lk = get_locks(p)
